@@ -52,7 +52,7 @@ package main
 //@   at call github.com/pkg/diff.Text assert [C12] the-new-text-is-rendered-line-for-line: noCR(string(boxedSlice(arg3))) && nlTerminated(string(boxedSlice(arg3)))
 //@   at call github.com/pkg/diff.Text assert [C12] the-diff-shows-the-line-ends-of-the-text-on-disk: noCR(string(boxedSlice(arg2)))
 //@   at call github.com/pkg/diff.Text assert [C12] the-diff-shows-a-missing-final-newline-of-the-text-on-disk: nlTerminated(string(boxedSlice(arg2)))
-//@   at call github.com/pkg/diff.Text assert [C12] the-diff-leads-from-the-bytes-on-disk-to-the-bytes-the-other-modes-emit: arg0 == filename0 && arg1 == filename0 && boxedSlice(arg2) == originalContent0 && boxedSlice(arg3) == modifiedContent0 && arg4 == cmd.Stdout
+//@   at call github.com/pkg/diff.Text assert [C07,C12] the-diff-leads-from-the-bytes-on-disk-to-the-bytes-the-other-modes-emit: arg0 == filename0 && arg1 == filename0 && boxedSlice(arg2) == originalContent0 && boxedSlice(arg3) == modifiedContent0 && arg4 == cmd.Stdout
 
 //@ func (r *patchRunner) Apply(filename, f) (fout, comments, matched)
 //@   requires typing: snapEnvOK()
@@ -74,6 +74,7 @@ package main
 //@   ensures [C06] matched-only-after-match: matched ==> matchCount > old(matchCount)
 //@   ensures [C09,C12,C16] failed-replace-means-unmatched: replFail > old(replFail) ==> (!matched && len(r.errors) > old(len(r.errors)))
 //@   ensures [C06,C09] only-errors-grow: len(r.errors) >= old(len(r.errors))
+//@   ensures [C06,C15,C16] a-file-is-given-up-only-for-a-failure-of-its-own: replFail == old(replFail) ==> (matched == (matchCount > old(matchCount))) && len(r.errors) == old(len(r.errors))
 //@   ensures errors-array-same-or-fresh: r.errors.arr == old(r.errors.arr) || fresh(r.errors.arr)
 //@   loop 0
 //@     invariant snap != nil && snap.value != nil && wfV(snap.value)
@@ -85,6 +86,8 @@ package main
 //@     invariant [C09] later-changes-see-the-rewritten-file: fout == nil || fout == f
 //@     invariant matched ==> fout != nil
 //@     invariant matched ==> matchCount > old(matchCount)
+//@     invariant [C06,C15,C16] matchCount > old(matchCount) ==> matched
+//@     invariant [C06,C15,C16] len(r.errors) == old(len(r.errors))
 //@     invariant matchCount >= old(matchCount)
 //@     invariant [C03,C05,C07,C09,C11,C12,C16] a-file-is-abandoned-as-soon-as-a-replacement-fails: replFail == old(replFail)
 //@     invariant len(r.errors) >= old(len(r.errors))
@@ -98,6 +101,8 @@ package main
 //@     invariant [C09] later-changes-see-the-rewritten-file: fout == nil || fout == f
 //@     invariant matched ==> fout != nil
 //@     invariant matched ==> matchCount > old(matchCount)
+//@     invariant [C06,C15,C16] matchCount > old(matchCount) ==> matched
+//@     invariant [C06,C15,C16] len(r.errors) == old(len(r.errors))
 //@     invariant matchCount >= old(matchCount)
 //@     invariant [C03,C05,C07,C09,C11,C12,C16] a-file-is-abandoned-as-soon-as-a-replacement-fails: replFail == old(replFail)
 //@     invariant len(r.errors) >= old(len(r.errors))
@@ -172,7 +177,12 @@ package main
 //@   at call (*main.mainCmd).preview assert [C07] diffed-bytes-parse: Parses(string(arg3))
 //@   at call (*main.mainCmd).preview assert [C18] generated-skipped: !(opts.SkipGenerated && ret("main.checkGeneratedCode", 0))
 //@   at call (*main.mainCmd).printComments assert [C06,C12] only-matched: ok
+//@   at call (*log.Logger).Printf where arg1 is "generated file %s: skipped" assert [C18] only-a-file-that-is-itself-generated-is-passed-over: opts.SkipGenerated && ret("main.checkGeneratedCode", 0)
+//@   at call main.checkGeneratedCode assert [C18] the-file-just-parsed-is-the-one-inspected: arg0 == f
 //@   at call (*main.patchRunner).Apply assert [C18] generated-skipped: !(opts.SkipGenerated && ret("main.checkGeneratedCode", 0))
+//@   at call main.loadPatches set patchLoads = patchLoads + 1
+//@   at call main.loadPatches set loadFailures = loadFailures + ite(result1 != nil, 1, 0)
+//@   ensures [C09,C16,C19] a-run-that-succeeds-has-loaded-its-patches-whatever-the-targets: err == nil && !ret("main.newArgParser", 0, 1).DisplayVersion ==> patchLoads == old(patchLoads) + 1 && loadFailures == old(loadFailures)
 //@   at call main.findFiles set enumerations = enumerations + 1
 //@   ensures [C15] success-means-the-requested-files-were-enumerated-and-each-was-visited: err == nil && !ret("main.newArgParser", 0, 1).DisplayVersion ==> enumerations == old(enumerations) + 1 && filesRead == visitMark + filesListed
 //@   at call main.findFiles set visitMark = filesRead
@@ -289,7 +299,8 @@ package main
 //@   ensures err == nil ==> wfProg(prog)
 
 //@ func (l *patchLoader) LoadReader(name, r) (err)
-//@   at call funcval:main.patchLoader.parseAndCompile assert [C13,C19] the-bytes-read-are-the-bytes-parsed-under-the-name-given: arg0 == l.fset && arg1 == name && arg2 == ret("io.ReadAll", 0, 0)
+//@   at call io.ReadAll assert [C03,C13,C19] the-reader-given-is-the-one-read-to-its-end: arg0 == r
+//@   at call funcval:main.patchLoader.parseAndCompile assert [C03,C13,C19] the-bytes-read-are-the-bytes-parsed-under-the-name-given: arg0 == l.fset && arg1 == name && arg2 == ret("io.ReadAll", 0, 0)
 //@   assigns l.progs, elems(l.progs)
 //@   ensures [C09,C13] loaded-appended-last: err == nil ==> len(l.progs) == old(len(l.progs)) + 1
 //@   ensures [C09] appended-are-wellformed: forall i int {l.progs[i]} :: old(len(l.progs)) <= i && i < len(l.progs) ==> wfProg(l.progs[i])
@@ -324,5 +335,7 @@ package main
 // here once (the reflect type constants of package goast are what their names say; the runtime passes at least
 // the program name; the standard streams exist).
 //@ func runMain() (exitCode)
+//@   ensures [C07,C16] the-exit-status-is-1-for-any-failure-and-0-otherwise: exitCode == ite(ret("(*main.mainCmd).Run", 0) == nil, 0, 1)
+//@   at call (*main.mainCmd).Run assert [C12,C15,C16] the-command-is-wired-to-the-process-itself: arg0.Getwd == fn("os.Getwd") && arg0.Stdout == boxed(global("os.Stdout")) && arg0.Stderr == boxed(global("os.Stderr")) && arg0.Stdin == boxed(global("os.Stdin"))
 //@   unfold len(global("os.Args")) >= 1 && global("os.Stdout") != nil && global("os.Stderr") != nil
 //@   unfold snapEnvOK() && compileEnvOK()
